@@ -652,6 +652,15 @@ def _sub_bodies(n):
     return []
 
 
+def is_real_copy(call) -> bool:
+    """`x.copy()` / `copy.deepcopy(x)` that yields an independent object: networkx `g.copy(as_view=True)` is a live read-only
+    VIEW of g, not a copy"""
+    if not (isinstance(call, ast.Call) and isinstance(call.func, ast.Attribute) and call.func.attr in ('copy', 'deepcopy')):
+        return False
+    return not any(k.arg == 'as_view' and not (isinstance(k.value, ast.Constant) and k.value.value is False)
+                   for k in call.keywords)
+
+
 def walk_no_nested(node):
     """ast.walk over a function body that does not descend into nested function/class definitions
     (lambdas and comprehensions are descended)."""
